@@ -295,42 +295,30 @@ func ruleListMerge(c *Ctx, r *Report) {
 		return
 	}
 	for i, ov := range overrides {
+		// The override may run only when the lookup missed: !val.IsValid() || val.IsZero().
+		// Truth-table reading: under the one assignment that is a hit (valid and non-zero)
+		// some fact that holds at the override must be definitely false, in whatever form
+		// (if/else, negated guard, early continue) the code states it.
+		atom := func(e ast.Expr) (bool, bool) {
+			if cc, ok := ast.Unparen(e).(*ast.CallExpr); ok {
+				if sel, ok := cc.Fun.(*ast.SelectorExpr); ok && ObjOf(info, sel.X) == valObj {
+					switch FullName(Callee(info, cc)) {
+					case "reflect.Value.IsValid":
+						return true, true
+					case "reflect.Value.IsZero", "reflect.Value.IsNil":
+						return false, true
+					}
+				}
+			}
+			return false, false
+		}
 		miss := false
 		for _, ft := range c.FactsAt(f, ov, false) {
-			if ft.Kind == "cond" && ft.Pos && enclosesLexically(c, f, ft.Cond, ov) {
-				invalid := false
-				ast.Inspect(ft.Cond, func(n ast.Node) bool {
-					if u, ok := n.(*ast.UnaryExpr); ok && u.Op == token.NOT {
-						if cc, ok := ast.Unparen(u.X).(*ast.CallExpr); ok && FullName(Callee(info, cc)) == "reflect.Value.IsValid" && ObjOf(info, cc.Fun.(*ast.SelectorExpr).X) == valObj {
-							invalid = true
-						}
-					}
-					return true
-				})
-				// every disjunct must be a miss test on val.
-				var dis []ast.Expr
-				flattenOr(ft.Cond, &dis)
-				all := true
-				for _, d := range dis {
-					okd := false
-					if u, ok := d.(*ast.UnaryExpr); ok && u.Op == token.NOT {
-						d = ast.Unparen(u.X)
-						if cc, ok := d.(*ast.CallExpr); ok && FullName(Callee(info, cc)) == "reflect.Value.IsValid" && ObjOf(info, cc.Fun.(*ast.SelectorExpr).X) == valObj {
-							okd = true
-						}
-					} else if cc, ok := d.(*ast.CallExpr); ok {
-						fn := FullName(Callee(info, cc))
-						if (fn == "reflect.Value.IsZero" || fn == "reflect.Value.IsNil") && ObjOf(info, cc.Fun.(*ast.SelectorExpr).X) == valObj {
-							okd = true
-						}
-					}
-					if !okd {
-						all = false
-					}
-				}
-				if invalid && all {
-					miss = true
-				}
+			if ft.Kind != "cond" {
+				continue
+			}
+			if v, known := evalBool3(ft.Cond, atom); known && v != ft.Pos {
+				miss = true // this fact cannot hold on a hit
 			}
 		}
 		r.Check(miss, fmt.Sprintf("ytypes.unmarshalList:new-entry#%d", i+1), c.Pos(ov.Pos()), "new element used only when the lookup misses",
@@ -368,4 +356,32 @@ func isIfInit(c *Ctx, f *FuncInfo, call *ast.CallExpr) bool {
 		}
 	}
 	return false
+}
+
+// evalBool3 evaluates a boolean expression built with &&, ||, ! and parentheses in Kleene's
+// three-valued logic; atom gives the value of a leaf (known=false: unknown).
+func evalBool3(e ast.Expr, atom func(ast.Expr) (val, known bool)) (bool, bool) {
+	switch x := ast.Unparen(e).(type) {
+	case *ast.UnaryExpr:
+		if x.Op == token.NOT {
+			v, k := evalBool3(x.X, atom)
+			return !v, k
+		}
+	case *ast.BinaryExpr:
+		if x.Op == token.LAND || x.Op == token.LOR {
+			a, ka := evalBool3(x.X, atom)
+			b, kb := evalBool3(x.Y, atom)
+			if x.Op == token.LAND {
+				if (ka && !a) || (kb && !b) {
+					return false, true
+				}
+				return true, ka && kb
+			}
+			if (ka && a) || (kb && b) {
+				return true, true
+			}
+			return false, ka && kb
+		}
+	}
+	return atom(ast.Unparen(e))
 }
